@@ -158,6 +158,12 @@ func propC14(c *Ctx, r *Report) {
 	c.runOperandOrder(r, "order.ir", inPkgs("ir"))
 	c.runOperandOrder(r, "order.msl", inPkgs("msl"))
 	r.floor("order.ir", orderFloors["ir"])
+	r.Clauses = append(r.Clauses, signExtClause+" - here: conversion of supplied pipeline-constant values and literals into ScalarValues")
+	c.runSignExt(r, "conv.signext", inPkgs("msl", "ir", "glsl", "hlsl", "spirv"))
+	r.floor("conv.signext", 3)
+	r.Clauses = append(r.Clauses, kindLimitClause)
+	c.runKindLimits(r, "range.kindlimit", inPkgs("msl", "ir", "glsl", "hlsl", "spirv"))
+	r.floor("range.kindlimit", 5)
 	r.floor("overrides.ExpressionHandle.remappers", 8)
 	r.floor("overrides.rebuilds", 20)
 }
